@@ -1,11 +1,5 @@
-import Sp.Lfc
+import Sp.Ceil
 open Model
-
-/-- ceiling: mirror of floor (proof omitted in the spike: same script with `<` flipped) -/
-def CeilSpec (π : NSeq) (k m : Nat) : Option Nat → Prop
-  | none => ∀ j < m, ¬ π.getD k 0 < π.getD j 0
-  | some c => c < m ∧ π.getD k 0 < π.getD c 0 ∧
-      ∀ j < m, π.getD k 0 < π.getD j 0 → π.getD c 0 ≤ π.getD j 0
 
 def PInj (π : NSeq) : Prop :=
   ∀ a b, a < π.length → b < π.length → π.getD a 0 = π.getD b 0 → a = b
@@ -35,7 +29,7 @@ theorem getD_append_last (l : List Nat) (x : Nat) :
 theorem fits_sound (π σ : NSeq) (occ : List Nat) (i : Nat)
     (hk : occ.length < π.length) (hinj : PInj π)
     (hpre : PrefixIso π σ occ)
-    (hceil : CeilSpec π occ.length occ.length (leftCeil π occ.length))
+    (hceil : CeilSpec' π occ.length occ.length (leftCeil π occ.length))
     (hfit : lowerBound σ ((patternDetails π).getD occ.length ⟨none, none, 0, 0⟩) occ ≤ (σ.getD i 0 : Int) ∧
             (σ.getD i 0 : Int) ≤ upperBound σ ((patternDetails π).getD occ.length ⟨none, none, 0, 0⟩) occ) :
     PrefixIso π σ (occ ++ [i]) := by
